@@ -2,6 +2,7 @@ package checks
 
 import (
 	"fmt"
+	"path/filepath"
 	"sort"
 	"strings"
 
@@ -16,6 +17,8 @@ type compDef struct {
 	name  string   // registered name, e.g. components/card
 	args  []string // argument names used by the file
 	slots []string // declared slots ("" = default)
+	// the file sets sv = 0 before its placeholders and prints it after each
+	slotVar bool
 }
 
 type compCase struct {
@@ -64,8 +67,17 @@ func genComponentFile(c *core.Ctx, idx int) (compDef, []model.Stmt) {
 	if r.Intn(3) == 0 {
 		stmts = append(stmts, model.Assign{Name: "ds", E: model.StrLit{S: "set-inside-" + tag}}, model.Assign{Name: "clocal", E: model.Lit{V: model.Int(1)}}, model.Text{S: " now="}, model.Print{E: model.Var{Name: "ds"}})
 	}
+	// a slot body stands in the place of its placeholder: what it assigns is seen by the rest of the
+	// component file and by the slot bodies placed after it
+	if len(def.slots) > 0 && r.Intn(2) == 0 {
+		def.slotVar = true
+		stmts = append(stmts, model.Assign{Name: "sv", E: model.Lit{V: model.Int(0)}})
+	}
 	for _, s := range def.slots {
 		stmts = append(stmts, model.Text{S: " [" + s + ":"}, model.SlotRef{Name: s}, model.Text{S: "]"})
+		if def.slotVar {
+			stmts = append(stmts, model.Text{S: "sv="}, model.Print{E: model.Var{Name: "sv"}})
+		}
 	}
 	stmts = append(stmts, model.Text{S: ">"})
 	return def, stmts
@@ -130,6 +142,9 @@ func (cc *compCase) genUse(c *core.Ctx, def compDef, scopeVar string, forceNoSlo
 			if r.Intn(3) == 0 {
 				body = append(body, model.If{Conds: []model.Expr{model.Var{Name: "db"}}, Bodies: [][]model.Stmt{{model.Text{S: "(db)"}}}})
 			}
+			if def.slotVar && r.Intn(2) == 0 {
+				body = append(body, model.Text{S: "was"}, model.Print{E: model.Var{Name: "sv"}}, model.Assign{Name: "sv", E: model.Binary{Op: "+", L: model.Var{Name: "sv"}, R: model.Lit{V: model.Int(int64(site))}}})
+			}
 			use.Slots = append(use.Slots, model.SlotBody{Name: s, Body: body})
 		}
 	}
@@ -191,8 +206,9 @@ func genComponentTree(c *core.Ctx, i int) *compCase {
 	return cc
 }
 
+// treeDir is the directory the files of a tree are written to (its configured spelling cleaned)
 func treeDir(t *tmplTree) string {
-	return strings.TrimPrefix(strings.TrimSuffix(t.dir, "/"), "./")
+	return filepath.Clean(t.dir)
 }
 
 func init() {
@@ -219,7 +235,7 @@ func init() {
 				{Name: "component-trees", N: n, Run: func(c *core.Ctx, i int) {
 					cc := genComponentTree(c, i)
 					files := cc.tree.sources(exprLayouts[[]int{0, 1, 3, 1}[i%4]].st(c.Rng))
-					tpl, err := loadTree(c, treeDir(cc.tree), files, cc.tree.ext)
+					tpl, err := loadTreeAs(c, treeDir(cc.tree), cc.tree.dir, files, cc.tree.ext)
 					c.Nontrivial(fmt.Sprint(files))
 					if i < 2 {
 						c.Sample(map[string]any{"files": describeFiles(files)})
@@ -317,7 +333,7 @@ func init() {
 					}
 					cc.tree.files[page] = append(cc.tree.files[page], model.Text{S: " then "}, bad, model.Text{S: "."})
 					files := cc.tree.sources(model.Style{Layout: model.SpaceLayout})
-					tpl, err := loadTree(c, treeDir(cc.tree), files, cc.tree.ext)
+					tpl, err := loadTreeAs(c, treeDir(cc.tree), cc.tree.dir, files, cc.tree.ext)
 					c.Nontrivial(fmt.Sprint(fault, files))
 					if i < 5 {
 						c.Sample(map[string]any{"fault": fault, "files": describeFiles(files)})
